@@ -25,8 +25,9 @@ var validRE = map[string]*regexp.Regexp{
 	"nuget": regexp.MustCompile(`^[0-9]+(?:\.[0-9]+){1,3}(?:-` + svID + `(?:\.` + svID + `)*)?` + svBuild + `$`),
 	// PEP 440 Appendix B
 	"pypi": regexp.MustCompile(`(?i)^\s*v?(?:(?:([0-9]+)!)?([0-9]+(?:\.[0-9]+)*)([-_\.]?(a|b|c|rc|alpha|beta|pre|preview)[-_\.]?([0-9]+)?)?((?:-([0-9]+))|(?:[-_\.]?(post|rev|r)[-_\.]?([0-9]+)?))?([-_\.]?(dev)[-_\.]?([0-9]+)?)?)(?:\+([a-z0-9]+(?:[-_\.][a-z0-9]+)*))?\s*$`),
-	// Maven: tokens of digits / letters separated by '.', '-' or digit-letter transitions
-	"maven": regexp.MustCompile(`^[0-9A-Za-z]+(?:[.-][0-9A-Za-z]+)*$`),
+	// Maven standard layout: dotted numbers, then hyphen/transition separated qualifiers and
+	// numbers (no '.' after the first hyphen or letter, see mavenValid)
+	"maven": regexp.MustCompile(`^[0-9]+(?:\.[0-9]+)*(?:-?[A-Za-z]+(?:-?[0-9]+)?|-[0-9]+)*$`),
 	// Gem::Version::VERSION_PATTERN
 	"rubygems": regexp.MustCompile(`^[0-9]+(?:\.[0-9a-zA-Z]+)*(?:-[0-9A-Za-z-]+(?:\.[0-9A-Za-z-]+)*)?$`),
 	// Composer VersionParser: classical versions with a stability modifier
@@ -45,7 +46,7 @@ var canonRE = map[string]*regexp.Regexp{
 	"semver":    regexp.MustCompile(`^` + svNum + `\.` + svNum + `\.` + svNum + `(?:-` + cID + `(?:\.` + cID + `)*)?` + svBuild + `$`),
 	"nuget":     regexp.MustCompile(`^` + svNum + `(?:\.` + svNum + `){1,3}(?:-` + cID + `(?:\.` + cID + `)*)?` + svBuild + `$`),
 	"pypi":      regexp.MustCompile(`^(?:` + svNum + `!)?` + svNum + `(?:\.` + svNum + `)*(?:(?:a|b|rc)` + svNum + `)?(?:\.post` + svNum + `)?(?:\.dev` + svNum + `)?(?:\+` + pyLoc + `(?:\.` + pyLoc + `)*)?$`),
-	"maven":     regexp.MustCompile(`^` + svNum + `(?:\.` + svNum + `){0,3}(?:-(?:alpha|beta|milestone|rc|snapshot|sp)(?:-` + svNum + `)?)?$`),
+	"maven":     regexp.MustCompile(`^[0-9]+(?:\.[0-9]+)*(?:-?[A-Za-z]+(?:-?[0-9]+)?|-[0-9]+)*$`),
 	"rubygems":  regexp.MustCompile(`^` + svNum + `(?:\.` + svNum + `){0,4}(?:\.[a-z]+(?:\.?` + svNum + `)?)?$`),
 	"packagist": regexp.MustCompile(`^` + svNum + `\.` + svNum + `\.` + svNum + `(?:-dev|-(?:alpha|beta|RC|rc|a|b|pl|p|patch)` + svNum + `)?$`),
 	"alpine":    regexp.MustCompile(`^` + svNum + `(?:\.` + svNum + `)*[a-z]?(?:_` + apkSuf + `(?:` + svNum + `)?)*(?:-r` + svNum + `)?$`),
@@ -122,8 +123,13 @@ func IsCanonical(eco, s string) bool {
 	if re == nil || !re.MatchString(s) {
 		return false
 	}
+	if fam == "maven" && leadingZeroRun.MatchString(s) {
+		return false
+	}
 	return bigOK[fam] || fitsInt32(s)
 }
+
+var leadingZeroRun = regexp.MustCompile(`(?:^|[^0-9])0[0-9]`)
 
 // IsCanonicalPair adds the constraints between the two versions of a canonical pair.
 func IsCanonicalPair(eco, a, b string) bool {
